@@ -342,7 +342,7 @@ pub fn scenarios(tier: Tier) -> Vec<C09Scn> {
 				complete_reorder: None,
 				..Deviations::default()
 			},
-			k: if th { 3 } else { 2 },
+			k: if th { 2 } else { 1 },
 			async_from_start: vec![],
 			max_disconnects: 1,
 			deferred: vec![0, 1],
